@@ -22,6 +22,25 @@ def fill(claim, na):
         "sa/props/C20.py.",
         "DESIGN.md section 2, C20",
     )
-    for p in ["C01", "C02", "C03", "C04", "C05", "C06", "C07", "C08", "C09", "C10",
+    claim(
+        "C06",
+        "reader/writer token-set agreement extracted from the tokenizer and quoting functions + "
+        "mapping-protocol wiring through the resolved class hierarchy (custom ast analysis)",
+        "Decides: every character/prefix the CIF reader branches on at a line start ('#', ';', "
+        "'_', 'loop_', 'data_') has a quoting branch in the writer; every separator the tokenizer "
+        "splits on (blank, tab, newline, both quote characters) is quoted; a quote character is "
+        "only used where the path condition excludes it from the value; '.'/'?' mask tokens pair "
+        "with the same MaskValue in reader and writer; deserializers read ';' text fields "
+        "verbatim (4 known findings: they do not); every MutableMapping container of cif.py/"
+        "bcif.py/component.py defines the six dunders over one backing field, a super() "
+        "delegation targets the same dunder with the protocol arity, the '_' key prefix is "
+        "applied in all keyed dunders and removed exactly once; the cached row count is reset "
+        "when a column is set. Not decided: the round trip of arbitrary tables as a whole.",
+        "Trusted: the idiom tables of sa/props/C06.py (how a guard is recognised as implied by "
+        "'value starts with t'), the assumption that the first column of a looped row starts "
+        "the line (checked structurally).",
+        "DESIGN.md section 2, C06",
+    )
+    for p in ["C01", "C02", "C03", "C04", "C05", "C07", "C08", "C09", "C10",
               "C11", "C12", "C13", "C14", "C15", "C16", "C17", "C18", "C19"]:
         na(p, PENDING)
